@@ -55,6 +55,9 @@ pub fn make_bed() -> Bed {
         V::s("b"),
     ];
     pkg.insert_rows(msi::Insert::into("X").row(vals.iter().map(|v| v.to_msi()).collect())).expect("insert X");
+    // a second one-row table, the other operand when the tree is used as a join condition
+    pkg.create_table("Y", vec![msi::Column::build("Q").primary_key().int16()]).expect("create Y");
+    pkg.insert_rows(msi::Insert::into("Y").row(vec![msi::Value::Int(1)])).expect("insert Y");
     let row = pkg.select_rows(msi::Select::table("X")).expect("select X").next().expect("one row");
     let names = ["K", "cNull", "c0", "c1", "cM1", "c2", "c31", "c32", "cMax", "cA", "cB"];
     let env = names.iter().zip(vals.iter()).map(|(n, v)| (n.to_string(), v.clone())).collect();
@@ -209,6 +212,61 @@ fn check_as_condition(rep: &mut Report, bed: &mut Bed, e: &MExpr, lazy: &MExpr, 
     }
 }
 
+/// The tree as the ON condition of an inner and a left join of the one-row table with itself
+/// (columns are then named `X.<col>`): one joined row when true; none (inner) or one null-padded row (left) when false.
+fn check_as_join_condition(rep: &mut Report, bed: &mut Bed, e: &MExpr, truth: bool) {
+    fn qualify(e: &MExpr) -> MExpr {
+        match e {
+            MExpr::Col(c) => MExpr::Col(format!("X.{}", c)),
+            MExpr::Lit(v) => MExpr::Lit(v.clone()),
+            MExpr::Un(o, a) => MExpr::Un(*o, Box::new(qualify(a))),
+            MExpr::Bin(o, a, b) => MExpr::Bin(*o, Box::new(qualify(a)), Box::new(qualify(b))),
+            MExpr::And(a, b) => MExpr::And(Box::new(qualify(a)), Box::new(qualify(b))),
+            MExpr::Or(a, b) => MExpr::Or(Box::new(qualify(a)), Box::new(qualify(b))),
+        }
+    }
+    let on = qualify(&columnize(e));
+    let nx = bed.env.len();
+    for left in [false, true] {
+        let r = guarded(|| {
+            let q = if left {
+                msi::Select::table("X").left_join(msi::Select::table("Y"), em::lower(&on))
+            } else {
+                msi::Select::table("X").inner_join(msi::Select::table("Y"), em::lower(&on))
+            };
+            bed.pkg.select_rows(q).map(|rows| {
+                let rows: Vec<_> = rows.collect();
+                let padded = rows.first().map(|r| (nx..r.len()).all(|i| r[i].is_null())).unwrap_or(false);
+                (rows.len(), padded)
+            })
+        });
+        rep.count("used_as_join_condition");
+        let kind = if left { "left" } else { "inner" };
+        match r {
+            Ok(Ok((n, padded))) => {
+                let ok = if left { n == 1 && padded != truth } else { n == truth as usize };
+                if !ok {
+                    rep.violation(
+                        format!("C13/join-condition/{}/{}", kind, root_name(e)),
+                        format!("X {} JOIN Y ON {}: {} rows (null-padded: {}), condition is {}", kind, em::show(&on), n, padded, truth),
+                        json!({"expr": mexpr_to_json(e), "query": "join"}),
+                    );
+                }
+            }
+            Ok(Err(err)) => rep.violation(
+                format!("C13/join-error/{}", root_name(e)),
+                format!("X {} JOIN Y ON {} failed: {}", kind, em::show(&on), err),
+                json!({"expr": mexpr_to_json(e), "query": "join"}),
+            ),
+            Err(p) => rep.violation(
+                format!("C13/panic/{}", p.signature()),
+                format!("X {} JOIN Y ON {} panics: {} at {}", kind, em::show(&on), p.message, p.location),
+                json!({"expr": mexpr_to_json(e), "query": "join"}),
+            ),
+        }
+    }
+}
+
 /// update / delete with the tree as condition on a scratch table; the table
 /// must afterwards hold what the condition's truth dictates.
 fn check_update_delete(rep: &mut Report, bed: &mut Bed, e: &MExpr) {
@@ -224,6 +282,7 @@ fn check_update_delete(rep: &mut Report, bed: &mut Bed, e: &MExpr) {
             return;
         }
     };
+    check_as_join_condition(rep, bed, e, truth);
     // UPDATE X SET K = 8 WHERE e ; then read K ; restore
     let r = guarded(|| {
         let q = msi::Update::table("X").set("K", msi::Value::Int(8)).with(em::lower(&lazy));
